@@ -347,7 +347,7 @@ func genDir(r *rng.R, k int) *mdir {
 	id := 0
 	add := func(ckpt bool, ss []stmt) {
 		id++
-		d.files = append(d.files, buildFile(id, ckpt, ss, r.Intn(16)))
+		d.files = append(d.files, buildFile(id, ckpt, ss, r.Intn(128)))
 	}
 	ckFirst := r.Chance(1, 25)
 	for i := 0; i < nfiles; i++ {
@@ -484,7 +484,7 @@ func genExh(tier string) []*tcase {
 	rec = func(alpha []stmt, seq []stmt, cur state, depth int, tag string) {
 		if len(seq) > 0 {
 			n++
-			d := &mdir{files: []mfile{f1, buildFile(2, false, seq, n%16)}, label: tag}
+			d := &mdir{files: []mfile{f1, buildFile(2, false, seq, n%128)}, label: tag}
 			cases = append(cases, &tcase{id: fmt.Sprintf("%s%d", tag, n), label: tag, dir: d, latest: 1})
 		}
 		if depth == 0 {
@@ -518,7 +518,7 @@ func genExh(tier string) []*tcase {
 					ss = append(ss, stmt{k: "ok"})
 				}
 				n++
-				d := &mdir{files: []mfile{f1, buildFile(2, false, ss, n%16)}, label: "exhW"}
+				d := &mdir{files: []mfile{f1, buildFile(2, false, ss, n%128)}, label: "exhW"}
 				cases = append(cases, &tcase{id: fmt.Sprintf("exhW%d", n), label: "exhW", dir: d, latest: 1})
 			}
 		}
@@ -532,7 +532,7 @@ func genExh(tier string) []*tcase {
 		ss := []stmt{alphaB[0], alphaB[1], alphaB[2], alphaB[3]}
 		ss = append(ss, tail...)
 		n++
-		d := &mdir{files: []mfile{f1, buildFile(2, false, ss, n%16)}, label: "exhW"}
+		d := &mdir{files: []mfile{f1, buildFile(2, false, ss, n%128)}, label: "exhW"}
 		cases = append(cases, &tcase{id: fmt.Sprintf("exhW%d", n), label: "exhW", dir: d, latest: 1})
 	}
 	// first-file paths: one file only, 10 and 11 statements, with a drop of an in-file table.
@@ -544,7 +544,7 @@ func genExh(tier string) []*tcase {
 		}
 		for _, latest := range []int{1, 2} {
 			n++
-			d := &mdir{files: []mfile{buildFile(1, false, ss, n%16)}, label: "exhF"}
+			d := &mdir{files: []mfile{buildFile(1, false, ss, n%128)}, label: "exhF"}
 			cases = append(cases, &tcase{id: fmt.Sprintf("exhF%d", n), label: "exhF", dir: d, latest: latest})
 		}
 	}
@@ -556,7 +556,7 @@ func genExh(tier string) []*tcase {
 			ss = append(ss, stmt{k: "ok"})
 		}
 		n++
-		d := &mdir{files: []mfile{buildFile(1, false, ss, n%16)}, label: "exhF"}
+		d := &mdir{files: []mfile{buildFile(1, false, ss, n%128)}, label: "exhF"}
 		cases = append(cases, &tcase{id: fmt.Sprintf("exhF%d", n), label: "exhF", dir: d, latest: 1})
 	}
 	return cases
